@@ -154,6 +154,15 @@ def build_target(us, t, workdir, extra_defines=()):
                     f.write('#define V_POSTBLK_%s(p, n) (__CPROVER_rw_ok((p), (n)) && __CPROVER_POINTER_OFFSET(p) == 0 && __CPROVER_OBJECT_SIZE(p) == (n))\n' % fn)
                 else:
                     f.write('#define V_POSTBLK_%s(p, n) __CPROVER_is_fresh((p), (n))\n' % fn)
+                # V_PREBLK_<fn>(p, n): "p points to n accessible bytes" in the requires of <fn>: is_fresh for the function under
+                # enforcement (symbolic pre-state), plain accessibility where the contract replaces a call (the caller may pass
+                # pointers into one of its own objects)
+                if fn == t.enforce:
+                    f.write('#define V_PREBLK_%s(p, n) __CPROVER_is_fresh((p), (n))\n' % fn)
+                else:
+                    f.write('#define V_PREBLK_%s(p, n) __CPROVER_rw_ok((p), (n))\n#define V_PREBLK_R_%s(p, n) __CPROVER_r_ok((p), (n))\n' % (fn, fn))
+                if fn == t.enforce:
+                    f.write('#define V_PREBLK_R_%s(p, n) __CPROVER_is_fresh((p), (n))\n' % fn)
         f.write(us.c_text)
         f.write('\n/* ---- harness %s ---- */\n' % t.id)
         f.write(t.harness)
